@@ -293,7 +293,7 @@ func (c *FnCtx) typeFacts(t types.Type, term string) string {
 			return rangeFact(t, term)
 		}
 	case *types.Slice:
-		return fmt.Sprintf("(and (<= 0 (sl_off %[1]s)) (<= 0 (sl_len %[1]s)) (<= (sl_len %[1]s) (sl_cap %[1]s)) (<= (sl_cap %[1]s) 4611686018427387904) (<= (sl_off %[1]s) 4611686018427387904) (>= (sl_base %[1]s) 0) (=> (= (sl_base %[1]s) 0) (= (sl_cap %[1]s) 0)))", term)
+		return fmt.Sprintf("(and (<= 0 (sl_off %[1]s)) (<= 0 (sl_len %[1]s)) (<= (sl_len %[1]s) (sl_cap %[1]s)) (<= (sl_cap %[1]s) 72057594037927936) (<= (sl_off %[1]s) 72057594037927936) (>= (sl_base %[1]s) 0) (=> (= (sl_base %[1]s) 0) (= (sl_cap %[1]s) 0)))", term)
 	case *types.Struct:
 		var fs []string
 		for i := 0; i < u.NumFields(); i++ {
